@@ -36,6 +36,10 @@ type NodeSpec struct {
 	// node whose output reaches it unmapped; it returns {n<id>: input}. What a checkpoint holds for it (pending input,
 	// channel value, the placeholder of a rerun) is a string / a nil value, not a map.
 	Atom bool `json:"atom,omitempty"`
+	// Empty (C06, direct oracle only: such a case is not sent to the model): a plain lambda of a Graph (not a Workflow:
+	// the field mappings of a workflow read keys of the output) that answers with the EMPTY map. Whether a node is an
+	// interrupt point has nothing to do with what it returns.
+	Empty bool `json:"empty,omitempty"`
 }
 
 // Edge kinds: 0 = data + control (Graph.AddEdge / Workflow AddInput),
@@ -106,6 +110,19 @@ type Case struct {
 	// and is then made again: it resumes from the same stored bytes. Retry-1 = which resume call fails (mod the
 	// number of resume calls of the first run).
 	Retry int `json:"retry,omitempty"`
+	// EmptyID (C06): the checkpoint id the caller supplies for the first driven run is the empty string - an id like
+	// any other (the store is a key/value store; WithCheckPointID("") is "an id was supplied").
+	EmptyID bool `json:"empty_id,omitempty"`
+	// Conc > 1 (C06, direct oracle only): when everything else is over the forest is compiled afresh (twice)
+	// and Conc callers make the FIRST calls on the fresh runnable at the same moment (what a server does with the
+	// first requests after start-up), each under its own checkpoint id. Every one of them must honour the interrupt
+	// points like a call made alone. Pad > 0: every interrupt list handed to that Compile carries Pad more names of
+	// nodes no graph has (legal, see ListSpec; long lists = a long-running first look at the configuration).
+	Conc int `json:"conc,omitempty"`
+	Pad  int `json:"pad,omitempty"`
+	// Typed (C05, direct oracle only): the case is a member of the typed family of typed.go (nodes declared over `any`,
+	// nil values / streams without chunks in the checkpoint) instead of a forest; every other field is ignored.
+	Typed *TypedSpec `json:"typed,omitempty"`
 }
 
 // sharesLists: graph gi is handed the shared lists of c.Lists.
@@ -170,6 +187,18 @@ func (g *GraphSpec) node(id int) *NodeSpec {
 	return nil
 }
 
+// hasEmpty: some node of the forest answers with the empty map (Case not sent to the model).
+func (c *Case) hasEmpty() bool {
+	for _, g := range c.Graphs {
+		for _, n := range g.Nodes {
+			if n.Empty {
+				return true
+			}
+		}
+	}
+	return false
+}
+
 func has(xs []int, x int) bool {
 	for _, y := range xs {
 		if y == x {
@@ -187,6 +216,9 @@ func sortedCopy(xs []int) []int {
 
 // Validate rejects cases the builder cannot express (used for corpus / replay input).
 func (c *Case) Validate() error {
+	if c.Typed != nil {
+		return c.Typed.validate()
+	}
 	if len(c.Graphs) == 0 {
 		return fmt.Errorf("no graphs")
 	}
@@ -195,6 +227,12 @@ func (c *Case) Validate() error {
 	}
 	if c.NoStore && !c.NoID {
 		return fmt.Errorf("no_store needs no_id (an id without a store is refused by the run)")
+	}
+	if c.EmptyID && c.NoID {
+		return fmt.Errorf("empty_id is an id: not with no_id")
+	}
+	if c.Conc < 0 || c.Conc > 8 || c.Pad < 0 || c.Pad > 300000 {
+		return fmt.Errorf("conc in 0..8, pad in 0..300000")
 	}
 	if l := c.Lists; l != nil {
 		for _, gi := range l.Graphs {
@@ -226,6 +264,16 @@ func (c *Case) Validate() error {
 			}
 			if len(n.Rerun) > 0 && n.Sub != 0 {
 				return fmt.Errorf("graph %d node %d: a graph node cannot be a rerun node", gi, n.ID)
+			}
+			if n.Empty {
+				if g.Mode == "wf" || n.Sub != 0 || n.Leaf || n.Atom {
+					return fmt.Errorf("graph %d node %d: an empty-output node is a plain lambda of a Graph", gi, n.ID)
+				}
+				for _, m := range g.Nodes {
+					if m.InKey == n.ID {
+						return fmt.Errorf("graph %d node %d: an empty-output node has no key a successor could ask for", gi, n.ID)
+					}
+				}
 			}
 			if n.Leaf && (g.Mode != "wf" || n.Sub != 0 || n.InKey != 0) {
 				return fmt.Errorf("graph %d node %d: a leaf node is a plain workflow lambda", gi, n.ID)
